@@ -1160,6 +1160,108 @@ pub fn cff2_with_subrs(d: &[u8], glyphs: &[u16], nest: u8) -> Result<Vec<u8>, St
     Ok(out)
 }
 
+/// A well-formed `cvar` table for `axes` axes and `num_cvts` control values.
+pub fn build_cvar(axes: usize, num_cvts: usize, variant: u64) -> Vec<u8> {
+    let tuples = 1 + (variant % 3) as usize;
+    let shared = variant / 3 % 2 == 1;
+    // packed point numbers for the first `k` control values (k == 0: "all")
+    let points = |k: usize| -> Vec<u8> {
+        if k == 0 {
+            return vec![0];
+        }
+        let k = k.min(127);
+        let mut v = vec![k as u8, (k - 1) as u8];
+        v.push(0);
+        for _ in 1..k {
+            v.push(1);
+        }
+        v
+    };
+    // packed deltas: `n` values, in runs of bytes, words or zeros by `mode`
+    let deltas = |n: usize, mode: u64, seed: u64| -> Vec<u8> {
+        let mut v = Vec::new();
+        let mut left = n;
+        let mut i = seed;
+        while left > 0 {
+            let run = left.min(1 + (i % 64) as usize);
+            match (mode + i) % 3 {
+                0 => {
+                    v.push((run - 1) as u8);
+                    for j in 0..run {
+                        v.push(((i as usize + j) % 11) as u8);
+                    }
+                }
+                1 => {
+                    v.push(0x40 | (run - 1) as u8);
+                    for j in 0..run {
+                        v.extend_from_slice(&(((i as usize + j) % 700) as i16 - 350).to_be_bytes());
+                    }
+                }
+                _ => v.push(0x80 | (run - 1) as u8),
+            }
+            left -= run;
+            i = i.wrapping_mul(6364136223846793005).wrapping_add(1442695040888963407) >> 7;
+        }
+        v
+    };
+    let mut headers: Vec<u8> = Vec::new();
+    let mut data: Vec<u8> = Vec::new();
+    let shared_k = if shared { (variant / 6 % 5) as usize } else { 0 };
+    if shared {
+        data.extend(points(shared_k));
+    }
+    for t in 0..tuples {
+        let tv = variant >> (8 + 4 * t);
+        let private = tv % 2 == 1;
+        let intermediate = tv / 2 % 4 == 3;
+        let pk = (tv / 8 % 6) as usize;
+        let mut td = Vec::new();
+        let npoints = if private {
+            td.extend(points(pk));
+            if pk == 0 { num_cvts } else { pk.min(127) }
+        } else if shared {
+            if shared_k == 0 { num_cvts } else { shared_k.min(127) }
+        } else {
+            // neither private nor shared point numbers: still needs a point number record
+            td.extend(points(0));
+            num_cvts
+        };
+        td.extend(deltas(npoints, tv / 48, tv | 1));
+        let mut flags: u16 = 0x8000;
+        if private || !shared {
+            flags |= 0x2000;
+        }
+        if intermediate {
+            flags |= 0x4000;
+        }
+        headers.extend_from_slice(&(td.len() as u16).to_be_bytes());
+        headers.extend_from_slice(&flags.to_be_bytes());
+        let axis = t % axes.max(1);
+        let peak: i16 = if tv / 16 % 2 == 0 { 0x4000 } else { -0x4000 };
+        for a in 0..axes {
+            headers.extend_from_slice(&(if a == axis { peak } else { 0 }).to_be_bytes());
+        }
+        if intermediate {
+            for a in 0..axes {
+                headers.extend_from_slice(&(if a == axis { peak / 2 } else { 0 }).to_be_bytes());
+            }
+            for a in 0..axes {
+                headers.extend_from_slice(&(if a == axis { peak } else { 0 }).to_be_bytes());
+            }
+        }
+        data.extend(td);
+    }
+    let mut t = Vec::new();
+    t.extend_from_slice(&1u16.to_be_bytes());
+    t.extend_from_slice(&0u16.to_be_bytes());
+    let count = tuples as u16 | if shared { 0x8000 } else { 0 };
+    t.extend_from_slice(&count.to_be_bytes());
+    t.extend_from_slice(&((8 + headers.len()) as u16).to_be_bytes());
+    t.extend(headers);
+    t.extend(data);
+    t
+}
+
 fn num_glyphs(disk: &Disk) -> Result<u16, String> {
     disk.tables
         .get(&tag_from_str("maxp"))
@@ -1355,6 +1457,27 @@ pub fn apply(disk: &mut Disk, s: &Surgery) -> Result<(), String> {
             let t = disk.tables.get(&tag_from_str("CFF2")).ok_or("surgery: no CFF2")?.clone();
             let new = cff2_with_subrs(&t, glyphs, *nest)?;
             disk.tables.insert(tag_from_str("CFF2"), Rc::new(new));
+            Ok(())
+        }
+        Surgery::InstallCvar { num_cvts, variant } => {
+            let fvar = disk.tables.get(&tag_from_str("fvar")).ok_or("surgery: no fvar")?.clone();
+            let axes = usize::from(be16(&fvar, 8).ok_or("surgery: short fvar")?);
+            if axes == 0 || !disk.tables.contains_key(&tag_from_str("glyf")) {
+                return Err("surgery: cvar needs a TrueType variable font".into());
+            }
+            let n = match disk.tables.get(&tag_from_str("cvt ")) {
+                Some(cvt) if cvt.len() >= 2 => cvt.len() / 2,
+                _ => {
+                    let n = usize::from((*num_cvts).clamp(1, 400));
+                    let mut cvt = Vec::with_capacity(2 * n);
+                    for i in 0..n {
+                        cvt.extend_from_slice(&((i as i16) * 37 - 900).to_be_bytes());
+                    }
+                    disk.tables.insert(tag_from_str("cvt "), Rc::new(cvt));
+                    n
+                }
+            };
+            disk.tables.insert(tag_from_str("cvar"), Rc::new(build_cvar(axes, n, *variant)));
             Ok(())
         }
         Surgery::CompactHmtx { num_h_metrics } => {
